@@ -71,7 +71,7 @@ def declTy (ty : Text) : Text :=
   | some d => d
   | none => []
 
-def declBase (b : FBase) : BaseV := ⟨b.name, declTy b.ty, b.dims.map (·.2), b.dims.filterMap (·.1)⟩
+def declBase (b : FBase) : BaseV := ⟨b.name, declTy b.ty, b.dims.map (·.2), b.dims.filterMap (·.1), true⟩
 
 mutual
 def declT : FTmpl → Tmpl
